@@ -26,7 +26,9 @@ LEVEL = "exploration"
 RULE = ("(class, raw) pairs: complete enumeration of all byte strings for every 1- and 2-byte value "
         "(distinct by construction), boundary sets (all-ones, all-ones-1, min-1, min, max, max+1, sign "
         "boundaries, every scale byte x value boundaries, NUL / 0x80+ at every string position and pair of "
-        "positions), a strided sweep of 3-byte values and Hypothesis byte strings for wider ones; non-trivial "
+        "positions, well-formed 2-/3-/4-byte UTF-8 characters and other multi-byte encodings' characters at every "
+        "string position - full field, directly before and behind the NUL - plus ill-formed look-alikes, generated "
+        "non-ASCII text encoded as UTF-8 / Latin-1 / UTF-16), a strided sweep of 3-byte values and Hypothesis byte strings for wider ones; non-trivial "
         "= the reference result is a flag, or the number lies on an edge of its valid range, or the scale "
         "byte is at the edge of its window, or a string contains NUL / non-ASCII bytes, or it is a special "
         "code (CCT 0xFFFE, version 0xFF); inverse: (class, in-range number) and (class, ASCII string) pairs; "
@@ -308,7 +310,59 @@ def string_boundaries(w):
                 x[p] = 0
                 x[q] = 0x80
                 out.add(bytes(x))
+    # non-ASCII text in some multi-byte character encoding: every sequence at every position of the field,
+    # in a full field without NUL, directly in front of a NUL at every position, and behind a NUL
+    for seq in MULTIBYTE_SEQS:
+        n = len(seq)
+        if n > w:
+            continue
+        for base in (a, bases[2]):
+            for p in range(w - n + 1):
+                x = bytearray(base)
+                x[p:p + n] = seq
+                out.add(bytes(x))                       # full field, no NUL
+                if p + n < w:
+                    y = bytearray(x)
+                    y[p + n] = 0
+                    out.add(bytes(y))                   # sequence directly before the NUL, text in front
+                    out.add(bytes(y[:p + n + 1]) + bytes(w - p - n - 1))   # ... and a zeroed tail
+                if p > 0:
+                    z = bytearray(x)
+                    z[p - 1] = 0
+                    out.add(bytes(z))                   # sequence directly behind the NUL
+        out.add((seq * (w // n + 1))[:w])               # nothing but such characters (last one may be cut)
+        out.add((seq * (w // n))[:w - 1].ljust(w, b"\x00"))
+        out.add((b"Caf" + seq + b"\x00").ljust(w, b"\x00")[:w])
+    for s1 in MULTIBYTE_SEQS[::3]:
+        for s2 in MULTIBYTE_SEQS[1::3]:
+            t = b"x" + s1 + b"yz" + s2
+            if len(t) < w:
+                out.add(t.ljust(w, b"\x00"))
+                out.add(t.ljust(w, b"\x41"))
     return sorted(out)
+
+
+def _multibyte_seqs():
+    """Byte sequences that are well-formed characters in common multi-byte encodings (UTF-8 of each length at
+    the edges of each length class, UTF-16/32 with BOM, Latin-1, Shift-JIS/GBK pairs) plus UTF-8 look-alikes
+    that are ill-formed (overlong, surrogate, beyond U+10FFFF, lone lead, lone continuation).  Every one of
+    them contains a byte >= 0x80, so none is ASCII."""
+    cps = [0x80, 0xE9, 0xFF, 0x100, 0x3A9, 0x7FF, 0x800, 0x20AC, 0x4E2D, 0xD7FF, 0xE000, 0xFFFD, 0xFFFF,
+           0x10000, 0x1F600, 0x10FFFF]
+    out = [chr(c).encode("utf-8") for c in cps]
+    out += ["é".encode(enc) for enc in ("latin-1", "utf-16", "utf-16-be", "utf-32")]
+    out += [b"\x82\xa0", b"\xd6\xd0", b"\xa4\xa2"]
+    out += [b"\xc0\x80", b"\xc1\xbf", b"\xe0\x80\x80", b"\xed\xa0\x80", b"\xf0\x80\x80\x80", b"\xf4\x90\x80\x80",
+            b"\xf5\x80\x80\x80", b"\xc3", b"\xa9", b"\xe2\x82", b"\xf0\x9f\x98", b"\xc3\xa9\xa9", b"\xfe\xff"]
+    seen, res = set(), []
+    for s in out:
+        if s not in seen and any(b >= 0x80 for b in s):
+            seen.add(s)
+            res.append(s)
+    return res
+
+
+MULTIBYTE_SEQS = _multibyte_seqs()
 
 
 def boundary_raws(row):
@@ -327,7 +381,8 @@ def image_choices(row):
     if kind == "string":
         a = bytes(0x30 + i % 40 for i in range(w))
         return [a, a[:w // 2] + bytes(w - w // 2), bytes(w), bytes([0xFF] * w), a[:3] + b"\x00" + bytes([0x80] * (w - 4)),
-                a[:w - 1] + b"\x80"]
+                a[:w - 1] + b"\x80", (b"Caf\xc3\xa9 \xe2\x82\xac\x00").ljust(w, b"\x00")[:w],
+                (a[:w - 4] + b"\xf0\x9f\x98\x80")[:w]]
     if kind == "scaled":
         bodies = number_boundaries(w - 1, row)[::3] + [bytes([0xFF] * (w - 1)), bytes([0xFF] * (w - 2) + [0xFE])]
         return [bytes([s]) + b for s in (0, 1, 6, 7, 0x80, 0xF9, 0xFA, 0xFF) for b in bodies]
@@ -600,10 +655,33 @@ def _hyp_raw_strategy(row):
             body = (body + list(tail))[:w]
             body += [0] * (w - len(body))
             return bytes(body)
+        # text of a real device label: mostly ASCII with some characters outside ASCII, stored in one of the
+        # usual encodings; NUL-terminated (zero or arbitrary tail) or filling the field completely
+        chars = st.one_of(st.characters(min_codepoint=0x20, max_codepoint=0x7E),
+                          st.characters(min_codepoint=0x80, max_codepoint=0x10FFFF, exclude_categories=("Cs",)),
+                          st.sampled_from("éüßñΩ€中😀"))
+
+        def build_text(t):
+            s, enc, mode, tail = t
+            try:
+                b = s.encode(enc)
+            except UnicodeEncodeError:
+                b = s.encode("utf-8")
+            if mode == 0:                   # terminated, zero tail
+                body = b[:w - 1] + bytes(w)
+            elif mode == 1:                 # terminated, arbitrary tail
+                body = b[:w - 1] + b"\x00" + bytes(tail)
+            elif mode == 2:                 # fills the field, no terminator
+                body = (b * (w // max(1, len(b)) + 1)) if b else bytes([0x41] * w)
+            else:                           # right-aligned: the text ends exactly at the end of the field
+                body = (bytes([0x41] * w) + b)[-w:]
+            return bytes(body[:w])
         return st.one_of(
             st.binary(min_size=w, max_size=w),
             st.tuples(st.integers(0, w), st.lists(ascii_, min_size=w, max_size=w), st.booleans(),
-                      st.integers(0, 255), st.booleans(), st.lists(anyb, min_size=w, max_size=w)).map(build))
+                      st.integers(0, 255), st.booleans(), st.lists(anyb, min_size=w, max_size=w)).map(build),
+            st.tuples(st.text(alphabet=chars, max_size=w), st.sampled_from(["utf-8", "utf-8", "latin-1", "utf-16-le"]),
+                      st.integers(0, 3), st.lists(anyb, min_size=w, max_size=w)).map(build_text))
     if kind == "scaled":
         scale = st.one_of(st.sampled_from([0, 1, 5, 6, 7, 8, 0x7F, 0x80, 0xF8, 0xF9, 0xFA, 0xFB, 0xFF]),
                           st.integers(0, 255))
